@@ -403,6 +403,18 @@ partial def runCircuitOps (fresh : OState × CState × SpecC03.Book) (ck : Close
 def suiteCircuit (kvs : List (String × String)) (lines : List (String × String)) : List String :=
   let c := initCirc kvs
   let b3 : SpecC03.Book := { sleep := kvInt kvs "c_sleep" 5000000000, half := kvInt kvs "c_half" 1, req := kvInt kvs "c_req" 1 }
-  (runCircuitOps (c.opener, c.closer, b3) (closerKind kvs) c c.cfg { openBefore := isOpenEff c, c03 := b3, thr := (match c.opener with | .consec o => o.threshold | _ => 0), ep := { sleep := b3.sleep, allow := b3.half } } lines #[]).toList
+  let outs := (runCircuitOps (c.opener, c.closer, b3) (closerKind kvs) c c.cfg { openBefore := isOpenEff c, c03 := b3, thr := (match c.opener with | .consec o => o.threshold | _ => 0), ep := { sleep := b3.sleep, allow := b3.half } } lines #[]).toList
+  -- dflt=1: the harness reports (field `dflt` of the first real line) what a circuit built from an EMPTY configuration
+  -- enforces when that is not the documented default of 10 concurrent runs / 10 concurrent fallbacks
+  match lines.head?, outs with
+  | some (_, real), o :: rest =>
+    (match kvGet (parseKVs (real.splitOn " ")) "dflt" with
+     | some note =>
+       let msg := "C04:a circuit built from an empty configuration enforces " ++ note
+       (match o.splitOn "\t" with
+        | [m, sp] => (m ++ "\t" ++ (if sp == "-" then "!" ++ msg else sp ++ "|" ++ msg)) :: rest
+        | _ => outs)
+     | none => outs)
+  | _, _ => outs
 
 end CM
